@@ -1525,6 +1525,19 @@ def _known_variant(rec, preds, P, y):
     return ks[0]
 
 
+def _fixed_variant(rec, y, depth=3):
+    """the variant index of local y when its only definition is an enum constructor (possibly moved through plain temporaries)"""
+    d = _all_defs(rec, y)
+    if len(d) != 1 or d[0][0] != "stmt" or d[0][3]["place"]["proj"]:
+        return None
+    rv = d[0][3]["rv"]
+    if rv["k"] == "aggregate" and rv.get("is_enum") and isinstance(rv.get("variant"), int):
+        return rv["variant"]
+    if depth and rv["k"] == "use" and rv["op"]["k"] in ("move", "copy") and not rv["op"]["place"]["proj"]:
+        return _fixed_variant(rec, rv["op"]["place"]["local"], depth - 1)
+    return None
+
+
 def _all_defs(rec, local):
     found = []
     for bi, blk in enumerate(rec["blocks"]):
@@ -1553,7 +1566,14 @@ def fold_try(rec, stats):
         xty = rec["locals"][x]
         defs = _all_defs(rec, x)
         def _agg(d):
-            return d[0] == "stmt" and not d[3]["place"]["proj"] and d[3]["rv"]["k"] == "aggregate" and d[3]["rv"].get("vname") in ("Ok", "Err")
+            if d[0] != "stmt" or d[3]["place"]["proj"]:
+                return False
+            rv = d[3]["rv"]
+            if rv["k"] == "aggregate":
+                return rv.get("vname") in ("Ok", "Err")
+            # `r = move y` with y built once as Ok(..) / Err(..) (the eager default of map_or / unwrap_or)
+            return rv["k"] == "use" and rv["op"]["k"] in ("move", "copy") and not rv["op"]["place"]["proj"] \
+                and _fixed_variant(rec, rv["op"]["place"]["local"]) is not None
 
         def _resid(d):
             # the inlined helper's own `?`: its early return is `x = from_residual(..)`, always an Err
@@ -1667,6 +1687,19 @@ def thread_jumps(rec, stats):
             continue
         # J must not write x itself
         if any(st["k"] == "assign" and st["place"]["local"] == x for st in jb["stmts"]):
+            # .. unless it builds x right there: `x = Variant_k(..); ..; d = discr(x); switch d` is a jump to arm k
+            ws = [i for i, st in enumerate(jb["stmts"]) if st["k"] == "assign" and st["place"]["local"] == x]
+            ds = [i for i, st in enumerate(jb["stmts"]) if st["k"] == "assign" and st["place"] == {"local": d, "proj": []}]
+            w = jb["stmts"][ws[-1]]
+            if len(ds) == 1 and ws[-1] < ds[0] and not w["place"]["proj"] and w["rv"]["k"] == "aggregate" and w["rv"].get("is_enum") \
+                    and isinstance(w["rv"].get("variant"), int) \
+                    and not any(st["k"] == "assign" and st["rv"]["k"] in ("ref", "rawptr") and st["rv"].get("mut") and st["rv"]["place"]["local"] == x
+                                for st in jb["stmts"][ws[-1]:ds[0]]):
+                k = w["rv"]["variant"]
+                tgt = next((tb for v, tb in t["arms"] if v == k), t["otherwise"])
+                jb["term"] = {"k": "goto", "target": tgt}
+                stats.setdefault(rec["path"], []).append("thread:built-here")
+                changed = True
             continue
         for P in sorted(preds.get(J, ())):
             pb = rec["blocks"][P]
@@ -1680,6 +1713,8 @@ def thread_jumps(rec, stats):
                     elif not st["place"]["proj"] and st["rv"]["k"] == "use" and st["rv"]["op"]["k"] in ("move", "copy") and not st["rv"]["op"]["place"]["proj"]:
                         # x = move y, and the only way into P is the arm `discr(y) == k` of a switch
                         k = _known_variant(rec, preds, P, st["rv"]["op"]["place"]["local"])
+                        if k is None:
+                            k = _fixed_variant(rec, st["rv"]["op"]["place"]["local"])
                     else:
                         k = None
             if k is None:
